@@ -676,3 +676,143 @@ def bool_guards_at(fn, bb):
             cond, truth = cond.a[1], not truth
         out.append((cond, truth))
     return out
+
+
+# ----------------------------------------------------------------------------- private helpers / local closures (interprocedural views)
+
+CLOSURE_CALLS = ("Fn::call", "FnMut::call_mut", "FnOnce::call_once")
+
+
+def is_private_helper(g, root):
+    """A body the analysed function may have been split into: a closure, or a non-public fn of the same crate."""
+    if g.crate != root.crate:
+        return False
+    if "{closure" in g.id:
+        return True
+    return not str(g.vis or "").startswith("Public")
+
+
+def _helper_target(prog, root, short, cs, args):
+    """(body Fn, substitution E->E) for a call that enters a private helper or a local closure, else None."""
+    if short in CLOSURE_CALLS and len(args) == 2 and args[0].k == "closure":
+        clo = args[0]
+        body = prog.fns.get(clo.a[0])
+        if body is None or body.crate != root.crate:
+            return None
+        caps = dict(zip(clo.a[2], clo.a[1])) if len(clo.a) > 2 else {}
+        tup = args[1]
+        comps = [v for _, v in tup.a[1]] if tup.k == "agg" else []
+        byidx = {i + 1: comps[i] for i in range(len(comps))}       # param index 0 is the closure environment
+
+        def f(y):
+            if y.k == "upvar" and y.a[0] in caps:
+                return caps[y.a[0]]
+            if y.k == "param" and y.a[0] in byidx:
+                return byidx[y.a[0]]
+            return None
+        return body, (lambda e: rebuild(e, f))
+    if cs is None:
+        return None
+    gs = [g for g in prog.callees(cs) if is_private_helper(g, root)]
+    if len(gs) != 1 or gs[0].id == root.id:
+        return None
+    return gs[0], _subst_params(gs[0], list(args))
+
+
+class VCall:
+    """A call site seen from a root function: either one of its own calls or a call inside a private helper / local closure it
+    enters (up to `depth` levels), with argument expressions and guards translated into the root's vocabulary."""
+    __slots__ = ("cs", "args", "guards", "chain")
+
+    def __init__(self, cs, args, guards, chain):
+        self.cs, self.args, self.guards, self.chain = cs, args, guards, chain
+
+    @property
+    def short(self):
+        return self.cs.short
+
+    @property
+    def callee(self):
+        return self.cs.callee
+
+    @property
+    def depth(self):
+        return len(self.chain) - 1
+
+    def arg(self, i):
+        return self.args[i] if i < len(self.args) else named("<no-arg>")
+
+    def guard(self, cond_re, tr=None):
+        """truth of the first guard whose (optionally transformed) rendering matches cond_re, else None"""
+        for g, t in self.guards:
+            if re.search(cond_re, str(tr(g) if tr else g)):
+                return t
+        return None
+
+    def where(self):
+        return self.chain[0].where()
+
+
+_VCALL_CACHE = {}
+
+
+def vcalls(prog, f, depth=2):
+    key = (id(prog), f.id, depth)
+    if key in _VCALL_CACHE:
+        return _VCALL_CACHE[key]
+    out = []
+    for c in f.calls:
+        if f.blocks[c.bb].get("cleanup"):
+            continue
+        args = [arg_at(c, i) for i in range(len(c.args))]
+        guards = bool_guards_at(f, c.bb)
+        out.append(VCall(c, args, guards, (c,)))
+        if depth <= 0:
+            continue
+        tgt = _helper_target(prog, f, c.short, c, args)
+        if tgt is None:
+            continue
+        g, sub = tgt
+        for v in vcalls(prog, g, depth - 1):
+            out.append(VCall(v.cs, [sub(a) for a in v.args], guards + [(sub(x), t) for x, t in v.guards], (c,) + v.chain))
+    _VCALL_CACHE[key] = out
+    return out
+
+
+def _body_mentions(prog, g, want_re, depth):
+    for c in g.calls:
+        if re.search(want_re, c.short):
+            return True
+    if depth > 0:
+        for c in g.calls:
+            for h in prog.callees(c):
+                if is_private_helper(h, g) and h.id != g.id and _body_mentions(prog, h, want_re, depth - 1):
+                    return True
+        for h in prog.closures_of(g):
+            if _body_mentions(prog, h, want_re, depth - 1):
+                return True
+    return False
+
+
+def inline_calls(prog, root, e, want_re, depth=2):
+    """Replace, inside expression e (in root's vocabulary), every call that enters a private helper / local closure whose body
+    (transitively, `depth` levels) contains a call matching want_re and which has exactly ONE value path, by that value
+    expression with parameters / captures substituted. Calls to other helpers stay as they are."""
+    if depth <= 0:
+        return e
+
+    def f(x):
+        if x.k != "call":
+            return None
+        args = [inline_calls(prog, root, a, want_re, depth) for a in x.a[1]]
+        tgt = _helper_target(prog, root, x.a[0], callsite(x), args)
+        if tgt is None:
+            return None
+        g, sub = tgt
+        if not _body_mentions(prog, g, want_re, depth - 1):
+            return None
+        vps = [p for p in paths(g) if not p.diverges and retkind(p.ret) == "value"]
+        if len(vps) != 1:
+            return None
+        return inline_calls(prog, root, sub(vps[0].ret), want_re, depth - 1)
+    return rebuild(e, f)
